@@ -26,10 +26,11 @@ from .corr import sample_params
 C_LIGHT = 2.997e10
 A_RAD = 1.3720e+02
 
-# calibrated on the unchanged tree (see calibrate() below): worst scaled residual over
-# 4000 admissible cases per solver is < 3e-9 for every equation that holds; x10 margin and
-# rounded up.  Genuine defects found so far are O(1e-2 .. 1).
-TOL = 1e-7
+# calibrated on the unchanged tree (python -m harness.o_c01_b, calibrate(4000)): the worst scaled
+# residual over 4000 admissible cases per solver is 3.6e-7 (Cog14 energy: second differences of a
+# flux of size c a ~ 4e12) for every equation that holds; x10 margin, rounded up.  The genuine
+# defects found (Cog13 energy, Cog17 mass/energy, Cog20 energy) are O(0.1 .. 1).
+TOL = 1e-5
 HREL = 1e-3
 
 
@@ -138,12 +139,14 @@ class Spec(object):
     """one solver: how to sample it and how to read its equations"""
 
     def __init__(self, name, cls, params, r, t, form='T', steady=False, cond=None, gamma=None, Gamma=None,
-                 k=None, shock=None, domain_check=False):
+                 k=None, shock=None, fixed=(), domain_fixed=(), domain_params=None):
         self.name, self.cls, self.params, self.r, self.t = name, cls, params, r, t
         self.form, self.steady, self.cond, self.gamma, self.Gamma = form, steady, cond, gamma, Gamma
         self.k = k or (lambda p: p['geometry'] - 1.0)
         self.shock = shock
-        self.domain_check = domain_check
+        self.fixed = list(fixed)                  # [(params, r, t)] evaluated before any random case
+        self.domain_fixed = list(domain_fixed)
+        self.domain_params = domain_params
         _, self.C = load(cls)
 
     def full(self, params):
@@ -175,47 +178,76 @@ class Spec(object):
                          gamma=self.gamma(p) if self.gamma else p.get('gamma'))
 
 
-def pde_oracle(spec, tol=TOL):
+def pde_oracle(spec, eq, tol=TOL):
+    """oracle of one balance equation (eq in 'mass' | 'momentum' | 'energy') of one solver"""
+    state = dict(n=0)
+
     def gen(rng):
+        # fixed cases first (class defaults / recorded witnesses), then random draws
+        k = state['n'] % 100         # the recorded cases come back every 100 draws
+        state['n'] += 1
+        if k < len(spec.fixed):
+            p, r, t = spec.fixed[k]
+            return dict(cls=spec.cls, params=dict(p), r=r, t=t)
         p = sample_params(spec.C, spec.params, rng)
         return dict(cls=spec.cls, params=p, r=rng.uniform(*spec.r), t=rng.uniform(*spec.t))
 
     def check(c):
         res = spec.evaluate(c['params'], c['r'], c['t'])
         if res is None:
-            if spec.domain_check:
-                return domain_failure(spec, c)
             return None
-        for eq in ('mass', 'momentum', 'energy'):
-            if res[eq] > tol:
-                # step halving: a truncation error drops ~16x, a genuine residual stays
-                r2 = spec.evaluate(c['params'], c['r'], c['t'], hrel=HREL / 2)
-                if r2 is None:
-                    return None
-                if r2[eq] > tol and r2[eq] > res[eq] / 4:
-                    return dict(site='%s:%s' % (spec.name, eq),
-                                detail='r=%r t=%r scaled %s residual %.3e (h), %.3e (h/2); required < %.0e'
-                                       % (c['r'], c['t'], eq, res[eq], r2[eq], tol))
+        if res[eq] > tol:
+            # step halving: a truncation error drops ~16x, a genuine residual stays
+            r2 = spec.evaluate(c['params'], c['r'], c['t'], hrel=HREL / 2)
+            if r2 is None:
+                return None
+            if r2[eq] > tol and r2[eq] > res[eq] / 4:
+                return dict(site='%s:%s' % (spec.name, eq),
+                            detail='r=%r t=%r: %s balance residual / largest term = %.3e (step h), %.3e (step h/2); '
+                                   'required < %.0e' % (c['r'], c['t'], eq, res[eq], r2[eq], tol))
         return None
-    return O.make(gen, check, 'c01.%s' % spec.name.lower())
+    return O.make(gen, check, 'c01.%s.%s' % (spec.name.lower(), eq))
 
 
-def domain_failure(spec, c):
-    """the call raised / left the reals / returned non-positive rho or T although the
-    parameters were drawn from the documented range"""
-    try:
-        s = O.construct(spec.cls, c['params'])
-        sol = s(np.array([c['r']], dtype=float), float(c['t']))
-    except Exception as ex:
+def domain_oracle(spec):
+    """the call must return real fields with positive density and temperature for parameters
+    drawn from the documented ranges (otherwise the documented equations are not even defined)"""
+    state = dict(n=0)
+
+    def gen(rng):
+        k = state['n'] % 100
+        state['n'] += 1
+        if k < len(spec.domain_fixed):
+            p, r, t = spec.domain_fixed[k]
+            return dict(cls=spec.cls, params=dict(p), r=r, t=t)
+        p = sample_params(spec.C, spec.domain_params or spec.params, rng)
+        return dict(cls=spec.cls, params=p, r=rng.uniform(*spec.r), t=rng.uniform(*spec.t))
+
+    def check(c):
+        site = '%s:domain' % spec.name
+        try:
+            with contextlib.redirect_stdout(io.StringIO()):
+                s = O.construct(spec.cls, c['params'])
+                sol = s(np.array([c['r']], dtype=float), float(c['t']))
+        except TypeError as ex:
+            if 'complex' in str(ex):
+                return dict(site=site, detail='r=%r t=%r: the call raises TypeError: %s' % (c['r'], c['t'], ex))
+            return None
+        except Exception:
+            return None
+        for n in ('density', 'temperature'):
+            v = sol[n][0]
+            if isinstance(v, (complex, np.complexfloating)):
+                if v.imag != 0:
+                    return dict(site=site, detail='r=%r t=%r: %s = %r is not real' % (c['r'], c['t'], n, complex(v)))
+                v = v.real
+            v = float(v)
+            if math.isnan(v):
+                return dict(site=site, detail='r=%r t=%r: %s is NaN' % (c['r'], c['t'], n))
+            if v <= 0:
+                return dict(site=site, detail='r=%r t=%r: %s = %r, required > 0' % (c['r'], c['t'], n, v))
         return None
-    for n in ('density', 'temperature'):
-        v = sol[n][0]
-        if isinstance(v, (complex, np.complexfloating)) and v.imag != 0:
-            return dict(site='%s:domain' % spec.name, detail='r=%r t=%r %s=%r is not real' % (c['r'], c['t'], n, v))
-        v = float(np.real(v))
-        if not math.isfinite(v) or v <= 0:
-            return dict(site='%s:domain' % spec.name, detail='r=%r t=%r %s=%r, required > 0' % (c['r'], c['t'], n, v))
-    return None
+    return O.make(gen, check, 'c01.%s.domain' % spec.name.lower())
 
 
 GEOM = [1, 2, 3]
@@ -280,14 +312,55 @@ SPECS = {
 # solution is independent of it because its heat flux is divergence free)
 SPECS['Cog18'].cond = lambda p: (1.0, p['alpha'], p['beta'])
 
-ORACLES = {n: pde_oracle(s) for n, s in SPECS.items()}
+# recorded inputs, evaluated before any random case ("boundary values first"):
+# the class defaults, and the witnesses of the Finding theorems in lean/EPV/Props/C01/Cog<N>.lean
+SPECS['Cog13'].fixed = [({}, 1.0, 1.0)]                                     # Finding_cog13_energy (class defaults)
+SPECS['Cog14'].fixed = [({}, 1.0, 1.0)]
+SPECS['Cog16'].fixed = [({}, 1.0, 1.0)]
+SPECS['Cog17'].fixed = [(dict(geometry=3, gamma=1.4, alpha=1.5, beta=3.0, lambda0=0.1, Gamma=40.0), 1.0, 1.0),
+                        (dict(geometry=3, gamma=1.4, alpha=1.5, beta=3.0, lambda0=0.1, Gamma=40.0), 2.0, 1.0)]
+SPECS['Cog18'].fixed = [(dict(geometry=3, alpha=-1.5, beta=2.0, rho0=1.8, tau=1.25, Gamma=40.0), 1.0, 0.5)]
+SPECS['Cog19'].fixed = [({}, 0.1, 1.0), ({}, 2.0, 1.0)]
+SPECS['Cog20'].fixed = [({}, 0.1, 0.5), ({}, 2.0, 0.5)]                      # Finding_cog20_post_energy (r = 0.1, t = 0.5)
+SPECS['Cog21'].fixed = [({}, 0.05, 0.1), ({}, 2.0, 1.0)]
+# documented ranges for the domain oracles: package docstring -1 <= alpha <= 2, constructor warning
+# range [-2,-1]; 1 <= beta <= 3; physical signs of the other parameters
+_DOC = dict(geometry=GEOM, gamma=(1.2, 3.0), rho0=(0.5, 3.0), alpha=(-2.0, 2.0), beta=(1.0, 3.0),
+            lambda0=(0.05, 0.5), Gamma=(10.0, 60.0))
+SPECS['Cog13'].domain_params = _DOC
+SPECS['Cog13'].domain_fixed = [(dict(alpha=-1.0), 1.0, 1.0)]                # Finding_cog13_domain: complex temperature
+SPECS['Cog14'].domain_params = _DOC
+SPECS['Cog14'].domain_fixed = [(dict(geometry=1), 1.0, 1.0)]                # Finding_cog14_domain: TypeError (complex)
+SPECS['Cog17'].domain_params = {k: v for k, v in _DOC.items() if k != 'rho0'}
+SPECS['Cog17'].domain_fixed = [({}, 1.0, 1.0)]                              # Finding_cog17_domain: T < 0, rho < 0
+SPECS['Cog18'].domain_params = dict(geometry=GEOM, alpha=_away(-2.0, 2.0, 0.0, 0.05), beta=(1.0, 3.0),
+                                    rho0=(0.5, 3.0), tau=(1.0, 2.0), Gamma=(10.0, 60.0))
+SPECS['Cog18'].domain_fixed = [({}, 1.0, 0.5)]                              # Finding_cog18_domain: T < 0
+
+EQS = ('mass', 'momentum', 'energy')
+ORACLES = {(n, eq): pde_oracle(s, eq) for n, s in SPECS.items() for eq in EQS}
+DOMAIN = {n: domain_oracle(SPECS[n]) for n in ('Cog13', 'Cog14', 'Cog17', 'Cog18')}
 
 
-def cog(n):
-    return ORACLES['Cog%d' % n]
+def cog(n, eq):
+    """oracle of one balance equation of Coggeshall solution n (13, 14, 16-21)"""
+    return ORACLES[('Cog%d' % n, eq)]
 
 
-noh, noh2, noh2cog = ORACLES['Noh'], ORACLES['Noh2'], ORACLES['Noh2Cog']
+def cog_domain(n):
+    return DOMAIN['Cog%d' % n]
+
+
+def noh(eq):
+    return ORACLES[('Noh', eq)]
+
+
+def noh2(eq):
+    return ORACLES[('Noh2', eq)]
+
+
+def noh2cog(eq):
+    return ORACLES[('Noh2Cog', eq)]
 
 
 def calibrate(n=400, seed=1):
